@@ -9,7 +9,7 @@ from kernel.term import Term, Var, TypeCheckException
 from kernel.thm import Thm, primitive_deriv, InvalidDerivationException
 from kernel.proof import Proof, ProofStateException
 from kernel import extension
-from kernel.report import ExtensionReport
+from kernel.report import ExtensionReport, ProofReport
 
 
 class TheoryException(Exception):
@@ -495,7 +495,13 @@ class Theory:
                 self.extend_constant(ext)
             elif ext.is_theorem():
                 if ext.prf:
-                    self.check_proof(ext.prf)
+                    rpt = ProofReport()
+                    res_th = self.check_proof(ext.prf, rpt)
+                    if res_th is None or not res_th.can_prove(ext.th):
+                        raise CheckProofException(
+                            "proof of %s does not match its statement\n%s\n vs.\n%s" % (ext.name, ext.th, res_th))
+                    if rpt.gaps:  # Proof with gaps - the theorem is not proved
+                        ext_report.add_axiom(ext.name, ext.th)
                 else:  # No proof - add as axiom
                     ext_report.add_axiom(ext.name, ext.th)
 
